@@ -247,6 +247,10 @@ def run_case(case, factory_of, subclass=False, eq=False, bare=False):
         nres = drive if drive else min(st["aclose"], 1)
     # what is thrown into the generator is the block's exception itself (the object, in one of the two calling conventions)
     thrown_ok = all(any(x is blockexc for x in a) for a in st.get("thrown", []))
+    # the RuntimeErrors the manager raises itself (did not yield / did not stop / ignored GeneratorExit) are reports of
+    # its own: raised without an explicit cause, so that nobody further out takes them for a converted Stop*Iteration
+    if label in ("rt-noyield", "rt-nostop", "rt-ignored") and exc.__cause__ is not None:
+        label += "+with-cause"
     return {"label": label, "entered": entered, "nresume": nres, "acct_ok": acct.ok() and not acct.minted, "thrown_ok": thrown_ok}
 
 
